@@ -60,7 +60,8 @@ fn freq_column_set(rng: &mut impl Rng, m: usize, nsym: usize) -> Vec<Vec<String>
 }
 
 pub fn gen_motif<A: Abc>(rng: &mut impl Rng, fmt: &str, idx: usize) -> Motif {
-    let m = if rng.gen_bool(0.1) { rng.gen_range(20..=40) } else { rng.gen_range(1..=12) };
+    // widths: mostly short, some 20-40, and a few beyond 99 positions (three-digit TRANSFAC row labels)
+    let m = if idx % 17 == 5 { rng.gen_range(100..=125) } else if rng.gen_bool(0.1) { rng.gen_range(20..=40) } else { rng.gen_range(1..=12) };
     let k = A::KK - 1;
     let mut order: Vec<usize> = (0..k).collect();
     match fmt {
